@@ -895,7 +895,9 @@ MANIFEST = dict(
          "units, !condition with all six comparison operators in both orientations plus interval, disjunction and "
          "negation forms, unparenthesised mixes of || and && (3-4 operands, every truth assignment, int/float/str/"
          "bool), equality (options, ==, !=, <=, >=) on values of magnitude 1e-12, 1e-9, 1e-7 (unit-less and ns/us/s) "
-         "and 1e7, the empty string as final value against formats that require / allow it, "
+         "and 1e7, the empty string as final value against formats that require / allow it, option lists given by "
+         "reference (`!options {?arr}` / `= {?x}`: source with/without unit, stated unit, slice, modified source; node "
+         "in the same / another / no unit), number-looking strings (007, 1.10, 1e3, -0, nan ...) in == / != / options, "
          "int nodes against thresholds/options that are not integral in the node's unit (250 cm, "
          "2500 mm, 0.0025 km vs m), three anchored !format expressions, all dimension-bound forms incl. values that "
          "lack a bounded declared dimension (scalar / flat list, also via modification and sliced injection), "
